@@ -873,7 +873,7 @@ _lvl("C01", "proof",
      "END-TO-END theorem on the executed composition priority flood + single-direction router (Fs.C01.C01_pflood_singleRouter, any grid size / topology handed over by the grid, any elevations, masks and base-level sets, sequential or multi-threaded router variant; assumptions: strict-weak-order laws of the comparison, x < nextUp x, slope towards a lower neighbour above -DBL_MAX, neighbour lists in range and symmetric, base-level list duplicate-free): (1) base-level and masked nodes are their own receiver, (2) every proper step goes to an unmasked neighbour with strictly lower RETURNED elevation, (3) every node connected through unmasked neighbours to an unmasked base level reaches a base-level node after finitely many receiver steps and stops there, (4) no cycle. It rests on pflood_terminates (potential-function proof that the flood empties both queues within its fuel n+1), pflood_parent / pflood_complete (flood invariants), C04.routed_row (router scan) and C06.singleRouter_graph. Also step_wf (descent => well-founded) and tilt_descends (strict descent after the spanning-tree tilt pass). C01_pflood_multiRouter: the same for flood + multiple-direction router (every proper receiver is an unmasked neighbour with strictly lower returned elevation; a node connected to a base level is never a pit and all its receivers stay connected; 'flows to' is well-founded, no cycle, every path has fewer than n steps; every maximal path from a connected node ends at a base level, and one exists). resolve_c01_singleRouter: the same for the executed SPANNING-TREE resolver (Fs.Mst.resolve with Kruskal, carve or basic) after the single router: base-level and masked nodes stay their own receiver; the re-routed receiver table is again a forest (so the rebuilt donors/orders are valid by C06); every proper step strictly decreases the RETURNED (tilted) elevation; carve never hangs; every unmasked node whose basin is reached from the root - in particular every node connected through unmasked neighbours to an unmasked base level (resolve_c01_connected) - ends at a base-level node. Built from routeCarve_spec (path reversal), routeBasic_spec, the fold over tree edges (rerouted_forest / rerouted_base), orient_spec + orient_reached_iff (the executed orientation returns an arborescence from the root: each reached basin is the head of exactly one edge, depths increase, reached = connected to the root in the tree), kruskal_keeps_virtual, connect_basins (C15) and tilt_descends; extra assumptions: elevations above -DBL_MAX (a real pass at -DBL_MAX would tie with the virtual edges - counterexample in C01MstExample), arrays fit in memory, the weight-sorted permutation check the harness performs. For Boruvka the same conclusions hold under the two tree facts (forest, virtual edges kept) that the model driver CERTIFIES on every resolver run of either method (line cert_mst: certOk on the raw tree + all virtual edges present): resolve_c01_tree. Certificate: on every scenario the model driver runs the Lean checker checkFlow on the receivers and elevation REPORTED BY THE C++ (soundness checkFlow_sound / checkFlow_paths: accepted => terminal nodes self, strict descent to unmasked (neighbour) nodes, no pit among nodes connected to a base level, hence every maximal path ends at a base level). raster_C01_pflood_single / _multi / raster_C01_mst: Closed corollaries (Closed.lean): the topology hypotheses (neighbours in range, row width <= n_neighbors_max, symmetry with multiplicity, positive distances, slope-above-lowest on neighbour slots) are DISCHARGED for the topology `rasterTopo` the executed raster model reports, for every raster with >= 2 nodes per axis and positive spacing over any ordered field - so the statements below hold for every such raster, mask, base-level set and elevation with no hypothesis about the grid left; all their hypotheses are shown satisfiable on a concrete 3x3 instance over Q (non-vacuity). THREE-OPERATOR PIPELINE single router -> spanning-tree resolver -> MULTIPLE-direction router (ClosedC01Pipeline.lean): grid_C01_mst_multi (carve, Kruskal, any grid with EnvOk; raster_/mesh_/profile_ instances, non-vacuity examples): the multi router run on the returned elevations leaves no unmasked node connected to a base level as a pit, all its receivers are strictly lower unmasked neighbours, the resolver's own receiver is among them, no flow path has a cycle, and EVERY maximal flow path from such a node ends at an unmasked base level. For basic the statement is FALSE and the negation is proved on a concrete instance (basic_multi_pit, decide +kernel on the executed model: the pit is drained to a non-neighbour pass node, so the neighbour-based router that runs next leaves it its own receiver) - this is the formal counterpart of the known finding D11 (basic_then_multi), which the check replays on the implementation. PIPELINE pflood -> single router (ClosedPfloodPipeline.lean): grid_pipeline_pflood_single states C01, C06, C03 conservation and C10 for the whole operator sequence with the hypotheses stated once; grid_reach_iff_connBase identifies the flood's reachability with 'connected through unmasked neighbours to an unmasked base level'.",
      "Lean 4 end-to-end theorems on the executed flood+router and spanning-tree resolver (loop invariants, potential-function termination, path-reversal / forest / arborescence proofs, composition) + bit-exact differential correspondence + reachability oracle")
 _lvl("C02", "proof",
-     "Theorems about the executed priority flood Fs.Flow.pflood (any grid size, any elevations over a linear order with strictly increasing monotone nextUp): pflood_ge_input (never below the input), pflood_fixed (bit-identical at base-level and masked nodes), pflood_ge_spill (every closed node is reached from an unmasked base level by an unmasked-neighbour path whose input elevations never exceed its filled elevation: f >= spill level), pflood_le_spill (for every such path and every bound v on the input along it, f <= v raised by n+2 floating-point increments: f <= spill + (n+2) ulps). They are obtained from the invariant proofs on the ghost-instrumented loop (Fs.UB) through an erasure theorem (run_erase, ubInit_erase: forgetting the ghost counters turns each instrumented step into the executed step). 'closed' = reached by the flood; that all unmasked-connected nodes are closed when the loop exits by itself is pflood_complete. The spanning-tree variants (Kruskal/Boruvka x basic/carve) are modelled statement by statement, compared bit for bit and checked by the independent Bellman minimax oracle (two-sided bound, agreement of all variants) - not proved. Spanning-tree variants (C02Mst*.lean, Kruskal, carve and basic): resolve_ge_input (never below the input), resolve_fixed / _self / _above (bit-identical at base-level and masked nodes, at every self-receiver, and wherever the node was already above its new receiver's final level: terrain that already drains keeps its elevation), resolve_exact_shape / resolve_chain (every raised node is exactly t floating-point increments above the INPUT elevation of the node t links down its new flow path, t + 1 <= n: 'at most one increment per grid node'), resolve_ge_spill_carve (carve: the new flow path is an unmasked-neighbour path to a base level along which the input never exceeds the node's returned elevation: >= spill level); raster_C02_mst closes them over rasters. UPPER BOUND (C02MstUpper*.lean, Kruskal, carve AND basic): resolve_c02_upper_singleRouter - for every unmasked node y, every unmasked-neighbour path from a base level to y and every bound v on the input elevations along it, the returned elevation is at most v raised by n floating-point increments, i.e. <= (spill level)+n ulps; proof: the new flow path only visits nodes whose input is <= max(f y, passes of the tree edges above y's basin) (newpath_bounded), any neighbour path crosses basin borders at pairs at least as high as the stored lowest passes (connect_basins theorems), hence the basins are joined within weight v in the basin graph and, by the bottleneck property of the Kruskal tree (C15Bottleneck) transported along the proved orientation, every tree edge above y's basin has pass <= v (low_of_path). resolve_c02_spill_level_singleRouter states lower and upper bound together for carve. LOWER BOUND FOR BASIC (C02MstBasic*.lean): resolve_ge_spill_basic - for basic the new receiver path leaves the neighbour relation (the pit jumps to the pass node), so the witness is a different path: [witness of the outflow pass node] ++ inflow pass node ++ [old receiver path down to the pit] ++ [old path from the pit up to y, reversed], all of whose INPUT elevations are <= the returned elevation of y (induction over the depth of the basin in the oriented tree; fold_basic2 records which branch routeBasic took); resolve_ge_spill (both methods), resolve_c02_spill_level_singleRouter_any (lower and upper bound together, carve AND basic) and its closed forms raster_/mesh_/profile_C02_mst_spill_level_any (ClosedBasic.lean) with non-vacuity instances. Left to per-run certificate + oracle + agreement of all variants: Boruvka. VERIFIED CHECKER ON THE IMPLEMENTATION'S OUTPUT (FsModel/SpillCheck.lean, FsProofs/Properties/SpillCheck.lean): at every update with a resolver the compiled model evaluates checkC02 on the elevation the C++ returned (cert_c02): the spill-level table is computed by minimax relaxation and accepted only if it passes a stability test; checkC02_sound' proves that acceptance implies the four clauses in the words of the theorems above (Fs.UB.Path / Bounded / pw) - never below the input, bit-identical at base-level and masked nodes, a witness path with inputs <= z'(y), and z'(y) <= v raised k times for EVERY path with bound v (witnessed_table, stable_optimal); the symmetry of the neighbour lists it needs is decided at run time by nbSymOk.",
+     "Theorems about the executed priority flood Fs.Flow.pflood (any grid size, any elevations over a linear order with strictly increasing monotone nextUp): pflood_ge_input (never below the input), pflood_fixed (bit-identical at base-level and masked nodes), pflood_ge_spill (every closed node is reached from an unmasked base level by an unmasked-neighbour path whose input elevations never exceed its filled elevation: f >= spill level), pflood_le_spill (for every such path and every bound v on the input along it, f <= v raised by n+2 floating-point increments: f <= spill + (n+2) ulps). They are obtained from the invariant proofs on the ghost-instrumented loop (Fs.UB) through an erasure theorem (run_erase, ubInit_erase: forgetting the ghost counters turns each instrumented step into the executed step). 'closed' = reached by the flood; that all unmasked-connected nodes are closed when the loop exits by itself is pflood_complete. The spanning-tree variants (Kruskal/Boruvka x basic/carve) are modelled statement by statement, compared bit for bit and checked by the independent Bellman minimax oracle (two-sided bound, agreement of all variants); for Kruskal they are also proved: Spanning-tree variants (C02Mst*.lean, Kruskal, carve and basic): resolve_ge_input (never below the input), resolve_fixed / _self / _above (bit-identical at base-level and masked nodes, at every self-receiver, and wherever the node was already above its new receiver's final level: terrain that already drains keeps its elevation), resolve_exact_shape / resolve_chain (every raised node is exactly t floating-point increments above the INPUT elevation of the node t links down its new flow path, t + 1 <= n: 'at most one increment per grid node'), resolve_ge_spill_carve (carve: the new flow path is an unmasked-neighbour path to a base level along which the input never exceeds the node's returned elevation: >= spill level); raster_C02_mst closes them over rasters. UPPER BOUND (C02MstUpper*.lean, Kruskal, carve AND basic): resolve_c02_upper_singleRouter - for every unmasked node y, every unmasked-neighbour path from a base level to y and every bound v on the input elevations along it, the returned elevation is at most v raised by n floating-point increments, i.e. <= (spill level)+n ulps; proof: the new flow path only visits nodes whose input is <= max(f y, passes of the tree edges above y's basin) (newpath_bounded), any neighbour path crosses basin borders at pairs at least as high as the stored lowest passes (connect_basins theorems), hence the basins are joined within weight v in the basin graph and, by the bottleneck property of the Kruskal tree (C15Bottleneck) transported along the proved orientation, every tree edge above y's basin has pass <= v (low_of_path). resolve_c02_spill_level_singleRouter states lower and upper bound together for carve. LOWER BOUND FOR BASIC (C02MstBasic*.lean): resolve_ge_spill_basic - for basic the new receiver path leaves the neighbour relation (the pit jumps to the pass node), so the witness is a different path: [witness of the outflow pass node] ++ inflow pass node ++ [old receiver path down to the pit] ++ [old path from the pit up to y, reversed], all of whose INPUT elevations are <= the returned elevation of y (induction over the depth of the basin in the oriented tree; fold_basic2 records which branch routeBasic took); resolve_ge_spill (both methods), resolve_c02_spill_level_singleRouter_any (lower and upper bound together, carve AND basic) and its closed forms raster_/mesh_/profile_C02_mst_spill_level_any (ClosedBasic.lean) with non-vacuity instances. Left to per-run certificate + oracle + agreement of all variants: Boruvka. VERIFIED CHECKER ON THE IMPLEMENTATION'S OUTPUT (FsModel/SpillCheck.lean, FsProofs/Properties/SpillCheck.lean): at every update with a resolver the compiled model evaluates checkC02 on the elevation the C++ returned (cert_c02): the spill-level table is computed by minimax relaxation and accepted only if it passes a stability test; checkC02_sound' proves that acceptance implies the four clauses in the words of the theorems above (Fs.UB.Path / Bounded / pw) - never below the input, bit-identical at base-level and masked nodes, a witness path with inputs <= z'(y), and z'(y) <= v raised k times for EVERY path with bound v (witnessed_table, stable_optimal); the symmetry of the neighbour lists it needs is decided at run time by nbSymOk.",
      "Lean 4 loop-invariant proofs (ghost-instrumented flood + erasure to the executed definitions) + bit-exact correspondence + independent minimax-spill oracle")
 _lvl("C03", "proof",
      "Theorems about the executed definitions Fs.Flow.accStep/accumulate instantiated over an arbitrary field: accStep_get, sweep_recurrence / accumulate_recurrence (for every graph and every sweep order - no node after one of its proper receivers, which C06 proves for the executed orders - every entry equals source*area plus the accumulated values of its donors weighted by their partition fractions; any size, single or multiple receivers), sweep_conservation / accumulate_conservation (if every non-terminal node's weights sum to one and it is not its own receiver - C05 - the sum over terminal nodes equals the source integrated over the grid), contrib_nonneg (non-negative source and weights => value >= local contribution). The Float instance of the same definitions is compared bit for bit with all four C++ overloads (which must agree with each other); rounding is covered by the exact-rational oracle with an error bound. multi_/single_accumulate_recurrence, _conservation, _nonneg (C03E2E.lean): the recurrence, conservation over terminal nodes and the lower bound for non-negative sources hold for the graphs the executed routers build, with only topology hypotheses left; raster_C03_*_conservation: Closed corollaries (Closed.lean): the topology hypotheses (neighbours in range, row width <= n_neighbors_max, symmetry with multiplicity, positive distances, slope-above-lowest on neighbour slots) are DISCHARGED for the topology `rasterTopo` the executed raster model reports, for every raster with >= 2 nodes per axis and positive spacing over any ordered field - so the statements below hold for every such raster, mask, base-level set and elevation with no hypothesis about the grid left; all their hypotheses are shown satisfiable on a concrete 3x3 instance over Q (non-vacuity). AFTER THE SINK RESOLVER (ClosedC03.lean): grid_C03_resolve - recurrence, conservation over the terminal nodes and the lower bound also hold for accumulate on the graph the spanning-tree resolver returns (single router, Kruskal, carve or basic), on every grid with EnvOk (raster, mesh, profile instances via raster_envOk / mesh_envOk / profile_envOk), non-vacuity instances over Q.",
